@@ -3,3 +3,4 @@
 (declare-fun de_info_ok (Iface) Bool)     ; whether DirEntry.Info succeeds
 (declare-fun time_before (S_time_Time S_time_Time) Bool)
 (declare-fun time_add (S_time_Time Int) S_time_Time)
+(declare-fun time_fmt (S_time_Time Str) Str)   ; Time.Format(layout)
